@@ -16,7 +16,7 @@ func init() {
 	prop("C17", []string{"R-LITTRUNC", "R-GATE", "R-CLONE", "R-FOLD"},
 		"every shortening of a literal list marks partial coverage on every path, no collection loop returns a partial collection, every shortening of literal bytes clears Complete (R-LITTRUNC); partial sets are not consumed as covering sets (R-GATE); clones of a literal sequence carry every field, in particular the partial-coverage flag (R-CLONE); case-fold variants come from unicode.SimpleFold on every path (R-FOLD).",
 		"that the extracted bytes are the right bytes (prefix/suffix/inner necessity is a language-level fact), LCP/LCS/minimisation arithmetic.")
-	prop("C12", []string{"R-LITTRUNC", "R-GATE", "R-CLONE", "R-SIBLING", "R-ASCIIGUARD"},
+	prop("C12", []string{"R-LITTRUNC", "R-GATE", "R-CLONE", "R-SIBLING", "R-ASCIIGUARD", "R-PFOFFSET"},
 		"the literal-count and literal-length limits (MaxLiterals, MaxLiteralLen, cross-product limit) can only shrink what a prefilter promises, never make a non-covering set look covering or a truncated literal look complete, and a partial set never gates a search (R-LITTRUNC, R-GATE, R-CLONE); the offset/state variants of each strategy helper consult the same engine flags as the base variant (R-SIBLING); the ASCII-only automaton (EnableASCIIOptimization) runs only on slices proven ASCII in full (R-ASCIIGUARD).",
 		"equality of results under DFA on/off, state limits, ASCII optimisation, CPU feature masking: value-level and declined.")
 	prop("C19", []string{"R-DISTINGUISH", "R-ASTWALK", "R-RUNEBYTE"},
